@@ -93,6 +93,7 @@ def default_knobs(rng, **over):
         ninstances=rng.randint(2, 5),
         inst_depth=rng.choice([2, 3, 3, 4]),
         variant=0,
+        triggers=rng.choice([False, False, True]),
     )
     k.update(over)
     return k
@@ -129,6 +130,16 @@ class WorldGen(object):
         if k.formats:
             self.formats = {"names": ["sim-evenlen", "sim-lower", "sim-noz"],
                             "variant": k.variant, "builtin": rng.random() < 0.3}
+        self.triggers = None
+        if k.triggers and (self.custom or self.formats):
+            self.triggers = {}
+            excs = ["ValueError", "KeyError", "RuntimeError", "SimFault", "TypeError"]
+            if self.formats:
+                self.triggers["format"] = {"value": "boom", "exc": rng.choice(excs)}
+            if self.custom and self.custom["types"]:
+                self.triggers["type"] = {"value": 13, "exc": rng.choice(excs)}
+            if self.custom and self.custom["keywords"]:
+                self.triggers["kw"] = {"value": "kaboom", "exc": rng.choice(excs)}
         defs = {}
         for i in range(k.ndefs - 1, -1, -1):  # generate high indices first (no dependency, just a fixed order)
             home = homes[i]
@@ -158,7 +169,7 @@ class WorldGen(object):
         return {
             "draft": self.draft, "root_url": self.root_url, "root": root, "docs": docs,
             "store_docs": store_docs, "custom": self.custom, "formats": self.formats,
-            "homes": homes, "instances": instances, "reflog": self.reflog,
+            "homes": homes, "instances": instances, "reflog": self.reflog, "triggers": self.triggers,
         }
 
     def top_level(self, base):
@@ -381,6 +392,14 @@ class WorldGen(object):
             kinds += ["x-marker"]
         if self.custom and self.custom["types"]:
             kinds += ["custom_type", "custom_type"]
+        if getattr(self, "triggers", None):
+            # faults need workload: make the raising collaborators reachable
+            if "format" in self.triggers:
+                kinds += ["format"] * 6
+            if "type" in self.triggers:
+                kinds += ["custom_type"] * 6
+            if "kw" in self.triggers:
+                kinds += ["x-marker"] * 6
         for kind in rng.sample(kinds, rng.choice([1, 1, 2])):
             if kind == "type":
                 names = TYPE_NAMES[d]
@@ -438,6 +457,8 @@ class WorldGen(object):
         if top:
             r = 0.3 + 0.7 * r if rng.random() < 0.9 else r
         if depth <= 0 or r < 0.3:
+            if self.triggers and rng.random() < 0.4:
+                return rng.choice(["boom", 13, "kaboom"])
             return rng.choice(ZOO)
         if r < 0.68:
             keys = rng.sample(KEYS + ["zz"], rng.randint(0, 3))
